@@ -820,6 +820,13 @@ func c16(c *core.Ctx) {
 	// "each APPLICABLE interceptor": a stream interceptor sees streaming methods only and a unary one unary methods
 	// only — each in-process entry point looks the method up in the table of its own kind (C12/R2)
 	c.Borrow("C12", map[string]string{"R2": "R8"}, c12)
+	// "every RPC goes through each applicable interceptor exactly once": over HTTP the interceptors run inside the
+	// dispatch, so every accepted request must reach it (C11/R2)
+	c.Borrow("C11", map[string]string{"R2": "R9"}, c11)
+	// "errors pass through unchanged": the context translators on the hand-off between handler (or interceptor) and
+	// caller replace an error only if it IS one of the context sentinels — an interceptor's error that merely wraps
+	// one keeps its own code (C02/R10)
+	c.Borrow("C02", map[string]string{"R10": "R10"}, c02)
 }
 
 func sameFieldLoad(a, b ssa.Value) bool {
